@@ -150,7 +150,7 @@ Definition ws_element (e : element) : bool :=
   end.
 
 Definition ws_file (f : jfile) : bool :=
-  forallb type_ident_or_seg (jf_dir f) &&
+  forallb type_ident_or_seg (jf_dir f) && file_lists_ok f &&
   match import_map (jf_imports f) [] with Ok _ => true | _ => false end &&
   forallb ws_element (jf_elements f).
 
